@@ -13,7 +13,7 @@ import os
 import random
 import struct
 
-from harness import core, disk, diskprop, enc_hds, enc_qcow2, enc_vdi, enc_vhd, enc_vhdx, enc_vmdk, patterns, tlc, tracecheck
+from harness import core, disk, diskcheck, diskprop, enc_hds, enc_qcow2, enc_vdi, enc_vhd, enc_vhdx, enc_vmdk, patterns, tlc, tracecheck
 from harness.vfile import VirtualFile
 
 LEVEL = "model_checking"
@@ -47,7 +47,7 @@ def giant_qcow2(rng, dense, cb=16, size=64 << 40):
     nl1 = -(-nc // l2n)
     # allocate a handful of clusters far apart (dense: many more in the same tables and other tables)
     hole_table = (nc // 3) // l2n   # the table covering the probed hole stays absent in the dense twin too
-    picks = sorted({0, 1, l2n - 1, l2n, nc // 2 + 7, nc - 1} | ({c for c in (_d.randrange(nc) for _ in range(400)) if c // l2n != hole_table} if dense else set()))
+    picks = sorted({0, 1, l2n - 1, l2n, nc // 2 + 7, nc - 1} | ({c for c in (_d.randrange(nc) for _ in range(400)) if c // l2n != hole_table and c % l2n != 5} if dense else set()))
     l1_off = 3 * cs
     l1_bytes = nl1 * 8
     tab_base = (1 << 41) // cs + 11        # L2 tables beyond 2 TiB
@@ -72,8 +72,14 @@ def giant_qcow2(rng, dense, cb=16, size=64 << 40):
                         out[p] = b[k]
         return bytes(out)
     ext.append((l1_off, l1_bytes, "fn", l1_gen))
+    # two compressed clusters at the same index of two different L2 tables (0.5 / 16 / 512 GiB apart), read back to back
+    slot = max(4096, cs // 8)
+    comp = enc_qcow2.CompArea((1 << 40) + 3 * cs, slot, cs)
+    ctwins = {5: 1, ((nc // 2 + 7) // l2n) * l2n + 5: 2}      # guest cluster -> compressed unit
+    ext.append((comp.base, 4 * slot, "fn", comp.gen))
     for t in tables:
         ents = {c % l2n: (dpos[c] * cs) | enc_qcow2.COPIED for c in picks if c // l2n == t}
+        ents.update({c % l2n: comp.descriptor(cid, cb) for c, cid in ctwins.items() if c // l2n == t})
 
         def tgen(off, n, ents=ents):
             out = bytearray(n)
@@ -99,8 +105,11 @@ def giant_qcow2(rng, dense, cb=16, size=64 << 40):
         n = min(n, (c + 1) * cs - o)
         probes.append((o, n, patterns.pat(0, dpos[c] * cs + (o - c * cs), n)))
     probes.append(((nc // 3) * cs + 12345, 8000, bytes(8000)))  # unallocated: zeros, no table at all
+    ca, cb_ = sorted(ctwins)
+    for c in (ca, cb_, ca):
+        probes.append((c * cs, 4096, patterns.cpat(ctwins[c], 0, 4096)))
     meta = len(hdr) + l1_bytes + len(tables) * cs
-    return Giant(f"qcow2-cb{cb}", [vf], lambda: QCow2(vf), size, probes, meta, note={"cluster_bits": cb, "tables": len(tables), "l1_bytes": l1_bytes})
+    return Giant(f"qcow2-cb{cb}", [vf], lambda: QCow2(vf), size, probes, meta, c0=8192 + 3 * (slot + 1024), note={"cluster_bits": cb, "tables": len(tables), "l1_bytes": l1_bytes})
 
 
 # ------------------------------------------------------------------------------------------------ VMDK
@@ -350,6 +359,61 @@ def giant_vmdk_descriptor(rng, dense):
         with counter.patched():
             return VMDK(Path(root) / "delta.vmdk")
     g = Giant("vmdk-descriptor", [counter], opener, next_ * cap * 512, probes, meta, c0=256 << 10, note={"extents_per_layer": next_, "layers": 2, "capacity_sectors": cap})
+    g.cleanup = lambda: shutil.rmtree(root, ignore_errors=True)
+    return g
+
+
+def giant_vmdk_flat(rng, dense):
+    """A descriptor naming six raw extents (FLAT / VMFS) of 2 TiB each - real sparse files whose first 64 MiB were never written -
+    and a hosted sparse one in between: opening looks at each file's first bytes, not at its content."""
+    import shutil
+    import tempfile
+    from pathlib import Path
+    from dissect.hypervisor.disk.vmdk import VMDK
+    _d = DR(rng)
+    cap = 1 << 32                                  # sectors per extent (2 TiB)
+    root = tempfile.mkdtemp(prefix="verif-c13f-")
+    counter = PathCounter()
+    lines, written, meta = [], {}, 0
+    types = [rng.choice(["FLAT", "VMFS"]) for _ in range(6)]
+    lead = 64 << 20
+    for k, t in enumerate(types):
+        fn = f"raw-f{k + 1:03d}.vmdk"
+        spots = {lead, lead + (1 << 30) + 512 * rng.randrange(0, 1000), (cap * 512) // 2 + 4096 * rng.randrange(0, 100), cap * 512 - 8192}
+        written[k] = sorted(spots)
+        if dense:
+            spots |= {lead + 8192 * _d.randrange(1, 1 << 27) for _ in range(40)}
+        with open(os.path.join(root, fn), "wb") as f:
+            f.truncate(cap * 512)
+            for o in sorted(spots):
+                f.seek(o)
+                f.write(patterns.pat(k, o, 8192))
+        lines.append(f'RW {cap} {t} "{fn}"' + (" 0" if t == "FLAT" else ""))
+    # a hosted sparse extent between the raw ones
+    grain, gtes = 128, 512
+    ng = cap // grain
+    pl = {g: 4096 + 2 * j * grain + (1 << 20) for j, g in enumerate(sorted({0, ng // 2, ng - 1}))}
+    vf, m = _hosted_extent(cap, grain, gtes, pl, 9)
+    vf.materialise(os.path.join(root, "mid-s001.vmdk"))
+    meta += m
+    lines.insert(3, f'RW {cap} SPARSE "mid-s001.vmdk"')
+    text = enc_vmdk.descriptor_text(lines, create_type="custom")
+    with open(os.path.join(root, "disk.vmdk"), "w") as f:
+        f.write(text)
+    meta += len(text)
+    order = [0, 1, 2, None, 3, 4, 5]     # extent index -> raw file number
+    probes = []
+    for e in rng.sample([0, 1, 2, 4, 5, 6], 4):
+        k = order[e]
+        for o in rng.sample(written[k], 2):
+            probes.append((e * cap * 512 + o, 4096, patterns.pat(k, o, 4096)))
+        probes.append((e * cap * 512 + 4096 * rng.randrange(0, 1000), 4096, bytes(4096)))     # never written: zeroes
+    probes.append((3 * cap * 512 + (ng // 2) * grain * 512, 4096, patterns.pat(9, pl[ng // 2] * 512, 4096)))
+
+    def opener():
+        with counter.patched():
+            return VMDK(Path(root) / "disk.vmdk")
+    g = Giant("vmdk-raw-extents", [counter], opener, 7 * cap * 512, probes, meta, c0=256 << 10, note={"extents": lines})
     g.cleanup = lambda: shutil.rmtree(root, ignore_errors=True)
     return g
 
@@ -649,7 +713,7 @@ def giant_vhdx_4k(rng, dense):
     return giant_vhdx(rng, dense, sector=4096)
 
 
-BUILDERS = [giant_qcow2, giant_qcow2_2m, giant_qcow2_4k, giant_vmdk_se, giant_vmdk_hosted, giant_vmdk_descriptor, giant_vmdk_stream, giant_vdi_parent, giant_vhdx_diff, giant_vhdx, giant_vhdx_4k, giant_vhd, giant_vdi, giant_hds, giant_hds_v1]
+BUILDERS = [giant_qcow2, giant_qcow2_2m, giant_qcow2_4k, giant_vmdk_se, giant_vmdk_hosted, giant_vmdk_descriptor, giant_vmdk_flat, giant_vmdk_stream, giant_vdi_parent, giant_vhdx_diff, giant_vhdx, giant_vhdx_4k, giant_vhd, giant_vdi, giant_hds, giant_hds_v1]
 
 
 def measure(g):
@@ -696,10 +760,17 @@ def run(ctx):
             try:
                 gs = mk(random.Random(seed), False)
                 gd = mk(random.Random(seed), True)
-                ev_s, tot_s, req, bad_s = measure(gs)
-                ev_d, tot_d, _, bad_d = measure(gd)
+                # a reader that starts to read a multi-terabyte file through is stopped by the watchdog
+                ev_s, tot_s, req, bad_s = diskcheck.with_watchdog(lambda: measure(gs), 180)
+                ev_d, tot_d, _, bad_d = diskcheck.with_watchdog(lambda: measure(gd), 180)
                 for g_ in (gs, gd):
                     getattr(g_, "cleanup", lambda: None)()
+            except diskcheck.Hang:
+                for g_ in (gs, gd):
+                    if g_ is not None:
+                        getattr(g_, "cleanup", lambda: None)()
+                ctx.violation({"format": mk.__name__, "fail": "io-cost", "why": "watchdog"}, {"format": mk.__name__, "why": "open + a handful of 4 KiB reads did not finish within 180 s"})
+                continue
             except Exception as e:  # noqa: BLE001
                 for g_ in (gs, gd):
                     if g_ is not None:
